@@ -112,21 +112,6 @@ Definition prop_add_auth_events_covers (args : list bytes) : bytes :=
   | _ => bs "badargs"
   end.
 
-(* [ver; steps; pool...; observable] where observable = reused verdicts | one-shot verdicts.
-   Specification side of checker reuse: the verdict list obtained through one reused checker
-   must be the verdict list of the one-shot evaluations. *)
-Definition prop_reuse_transparent (args : list bytes) : bytes :=
-  match last_arg args with
-  | Some (_, obs) =>
-      match split_at 124 obs with
-      | Some (reused, oneshot) =>
-          if bytes_eqb reused oneshot then bs "ok"
-          else bs "FAIL reused=" ++ reused ++ bs " oneshot=" ++ oneshot
-      | None => bs "badargs"
-      end
-  | None => bs "badargs"
-  end.
-
 (* [.. ; observable] where observable = v0,v1,...: all evaluations must agree with the first *)
 Definition prop_all_equal (args : list bytes) : bytes :=
   match last_arg args with
@@ -201,6 +186,32 @@ Fixpoint decode_steps (evs : list json) (i : N) (sts : list json) : list (provid
       ({| p_id := if same then 0 else i + 1;
           p_events := map (fun k => (N.of_nat k, nth k evs JNull)) set |}, nth ev evs JNull)
       :: decode_steps evs (i + 1) r
+  end.
+
+(* [ver; steps; signature tables; pool...; observable], observable = reused verdicts | one-shot
+   (Allowed) verdicts. Specification side of checker reuse: at every step the verdict obtained
+   through the reused checker is the verdict of the one-shot evaluation. Allowed first applies
+   AuthEvents.Valid() (all auth events of one room), which a context fed by state resolution does
+   not: the claim is demanded at the steps whose provider holds events of one room. *)
+Fixpoint verdicts_agree (f : ver_flags) (seq : list (provider * json)) (a b : list bytes) : bool :=
+  match seq, a, b with
+  | [], [], [] => true
+  | pe :: seq', x :: a', y :: b' =>
+      (negb (one_room f (p_auths (fst pe))) || bytes_eqb x y) && verdicts_agree f seq' a' b'
+  | _, _, _ => false
+  end.
+
+Definition prop_reuse_transparent (args : list bytes) : bytes :=
+  match last_arg args with
+  | Some (ver :: steps :: _sigs :: pool, obs) =>
+      match flags_of_version ver, parse_json steps, parse_all pool, split_at 124 obs with
+      | Some f, Some (JArr sts), Some evs, Some (reused, oneshot) =>
+          if verdicts_agree f (decode_steps evs 0 sts) (split_commas reused) (split_commas oneshot)
+          then bs "ok"
+          else bs "FAIL reused=" ++ reused ++ bs " oneshot=" ++ oneshot
+      | _, _, _, _ => bs "badargs"
+      end
+  | _ => bs "badargs"
   end.
 
 (* [ver; steps; signature tables; pool event ...] -> reused verdicts | one-shot (Allowed) verdicts *)
